@@ -48,6 +48,7 @@ class Case:
         self.spec_points = 0
         self.undo_mem = {}            # height -> block id: undo kept in memory, not yet UTXO-flushed
         self.undo_disk = {}           # height -> id of the block whose U row is on disk
+        self.dh = {}                  # height -> daemon height reported while that block was indexed
 
     # -- plumbing
     def emit(self, line, expect, kind):
@@ -78,6 +79,13 @@ class Case:
             for k in [k for k in self.undo_disk if k < h - self.lim + 1]:
                 del self.undo_disk[k]                         # clear_excess_undo_info
             self.chain = self.chain[:h + 1]
+            # C15 (second half), judged on the real DB only: no undo row below the window survives a start
+            stale = [k for k in self.real.undo_heights() if k < h - self.lim + 1]
+            if stale:
+                self.direct_fail.append({
+                    'clause': 'C15: undo information older than the window survives start-up',
+                    'detail': f'after a start at height {h} with reorg limit {self.lim} the DB still holds undo rows '
+                              f'for heights {stale}'})
         self.dumps()
         return r
 
@@ -88,6 +96,7 @@ class Case:
         if r == 'ok':
             self.chain.append(b)
             h = len(self.chain) - 1
+            self.dh[h] = daemon_h
             if h >= daemon_h - self.lim + 1:
                 self.undo_mem[h] = b.id
         self.res.bump('db_spends_with_2plus_candidates', self.real.last_multi_candidate_spends)
@@ -205,8 +214,12 @@ def run_case(res, rng, tier, groups, label):
             if len(c.chain) >= 2 and rng.random() < 0.2:
                 c.flush(True)
                 depth = rng.randrange(1, min(len(c.chain) - 1, lim + 1) + 1)
+                if rng.random() < 0.35:
+                    depth = min(len(c.chain) - 1, lim)       # a fork of depth exactly the limit
                 res.bump('reorgs')
+                res.bump('reorgs_of_depth_exactly_limit', int(depth == lim))
                 ok = True
+                tip_h = len(c.chain) - 1
                 for _ in range(depth):
                     top = len(c.chain) - 1
                     if top in c.undo_disk and c.undo_disk[top] != c.chain[top].id:
@@ -217,6 +230,15 @@ def run_case(res, rng, tier, groups, label):
                     r2 = c.backup()
                     if r2 != 'ok':
                         res.bump('backup_refused_' + r2)
+                        if top > tip_h - lim and c.dh.get(top, 1 << 60) <= tip_h:
+                            # C15 (first half), judged on the real code only: the block is among the
+                            # `limit` most recent ones of a fully flushed tip, and while it was indexed
+                            # the daemon was not above that tip (so it was inside its window then)
+                            c.direct_fail.append({
+                                'clause': 'C15: a block within the reorg limit of the tip cannot be undone',
+                                'detail': f'{r2} backing out height {top} (tip {tip_h}, reorg limit {lim}, daemon '
+                                          f'height {c.dh.get(top)} while it was indexed, block has '
+                                          f'{len(c.chain[top].txs)} txs)'})
                         ok = False
                         break
                     if rng.random() < 0.3:
@@ -248,32 +270,44 @@ def run_case(res, rng, tier, groups, label):
 
 def compare(res, c, label):
     got = run_evdrv('index', c.lines)
+    # first line on which model and code differ (correspondence), and first *specification* line on
+    # which the real code differs from the Lean specification of the indexed chain (direct oracle;
+    # S_ lines are evaluated from the chain named by S_CHAIN, independently of the model's state)
     bad = None
+    bad_spec = None
     for i, (e, g) in enumerate(zip(c.expect, got)):
         if e != g:
-            bad = i
-            break
+            if c.kinds[i] == 'spec':
+                if bad_spec is None:
+                    bad_spec = i
+            elif bad is None:
+                bad = i
     ops = [l for l, k in zip(c.lines, c.kinds) if k in ('cfg', 'adv', 'flush', 'backup', 'open')]
     canon = '|'.join(ops)
     nontrivial = any(k in ('flush', 'backup') for k in c.kinds) and any(k == 'spec' for k in c.kinds)
     res.note_case(canon + str(len(c.lines)), nontrivial)
     res.bump('protocol_lines', len(c.lines))
-    if bad is None:
-        return True
-    kind = c.kinds[bad]
-    # the op lines up to the failing line are the replayable case
-    case = {'suite': 'index', 'where': f'{label} line {bad} ({kind})',
-            'line': c.lines[bad][:300], 'code': c.expect[bad][:2000], 'model_or_spec': got[bad][:2000],
-            'script': [l for l, k in zip(c.lines[:bad + 1], c.kinds[:bad + 1]) if k not in ('dump', 'dumpmem')][-40:]}
-    if kind == 'spec':
+    ops_script = [l for l, k in zip(c.lines, c.kinds) if k not in ('dump', 'dumpmem', 'q', 'spec')]
+    for d in c.direct_fail[:1]:
+        res.violations.append(dict(d, suite='index', where=label, script=ops_script[-60:]))
+
+    def case_for(i):
+        kind = c.kinds[i]
+        return {'suite': 'index', 'where': f'{label} line {i} ({kind})',
+                'line': c.lines[i][:300], 'code': c.expect[i][:2000], 'model_or_spec': got[i][:2000],
+                'script': [l for l, k in zip(c.lines[:i + 1], c.kinds[:i + 1]) if k not in ('dump', 'dumpmem')][-40:]}
+    if bad_spec is not None:
+        case = case_for(bad_spec)
         case['clause'] = 'real index differs from the specification of the chain'
-        case['detail'] = f'{c.lines[bad][:120]}: code says {c.expect[bad][:300]} spec says {got[bad][:300]}'
+        case['detail'] = (f'{c.lines[bad_spec][:120]}: code says {c.expect[bad_spec][:300]} '
+                          f'spec says {got[bad_spec][:300]}')
         res.violations.append(case)
-    else:
-        case['grade'] = 'structural' if kind in ('dump', 'dumpmem') else 'observable'
+    if bad is not None and len(res.disagreements) < 3:
+        case = case_for(bad)
+        case['grade'] = 'structural' if c.kinds[bad] in ('dump', 'dumpmem') else 'observable'
         case['model'] = got[bad][:2000]
         res.disagreements.append(case)
-    return False
+    return bad is None and bad_spec is None and not c.direct_fail
 
 
 def run(tier, seed):
@@ -295,7 +329,9 @@ def run(tier, seed):
         if len(res.samples) < 2:
             res.sample({'ops': [l[:160] for l, k in zip(c.lines, c.kinds) if k in ('cfg', 'adv', 'flush', 'backup', 'open')][:30]})
         ok = compare(res, c, f'case {i} (seed {seed})')
-        if not ok and len(res.disagreements) + len(res.violations) >= 3:
+        # a broken correspondence alone does not end the run: keep searching for an input on which
+        # the property itself fails (the failing-input search); stop once there are violations
+        if not ok and len(res.violations) >= 3:
             break
     need = ['history_only_flushes', 'full_flushes', 'reorgs', 'restarts', 'gen_same_block_spends',
             'gen_colliding_prefix_txs_placed', 'gen_op_return_before_activation',
